@@ -83,6 +83,7 @@ type Disk struct {
 	Base   *Image // content when the disk was handed to the system
 	Trace  []Ev
 	Yield  bool // writes and barriers are scheduling points
+	NoTrace bool // do not record the trace (runs that need no crash images)
 	Hook   func(d *Disk, ev int, kind int)
 	Writes uint64
 	Reads  uint64
@@ -177,7 +178,9 @@ func (d *Disk) write(a uint64, v []byte) {
 	}
 	h := hashBlock(a, c)
 	d.img.Blocks[a] = c
-	d.Trace = append(d.Trace, Ev{Kind: EvWrite, Blk: a, Data: c, Hash: h, Step: simrt.Steps()})
+	if !d.NoTrace {
+		d.Trace = append(d.Trace, Ev{Kind: EvWrite, Blk: a, Data: c, Hash: h, Step: simrt.Steps()})
+	}
 	simrt.Note(h ^ a)
 }
 
@@ -197,7 +200,9 @@ func (d *Disk) barrier() {
 		return
 	}
 	d.Barrs++
-	d.Trace = append(d.Trace, Ev{Kind: EvBarrier, Step: simrt.Steps()})
+	if !d.NoTrace {
+		d.Trace = append(d.Trace, Ev{Kind: EvBarrier, Step: simrt.Steps()})
+	}
 	simrt.Note(0xBA221E2)
 }
 
